@@ -232,7 +232,9 @@ def run_case(case, ch):
                 f = fate
                 if f.startswith('first-ok-rest-'):
                     f = 'ok' if k == 0 else f[len('first-ok-rest-'):]
-                who = tuple(rcpts[k:k + 1]) if per else tuple(rcpts)
+                # who this invocation delivers to is what its command line says (the recipients it names, else everybody)
+                named = tuple(r for r in rcpts if any(r in (a if isinstance(a, str) else a.decode('latin-1')) for a in args))
+                who = named or tuple(rcpts)
                 log['started'].append(who)
                 if f == 'ok':
                     log['completed'].append(who)
@@ -241,8 +243,13 @@ def run_case(case, ch):
                 return {'temp': (75, b'4.2.0 later\n', b''), 'perm': (1, b'5.1.1 no such user\n', b''), 'killed': (-9, b'', b''),
                         'status255': (255, b'', b'')}[f]
             w.patch(pipe, 'subprocess', FakeSubprocess(script))
-            relay = pipe.PipeRelay(['deliver', '{recipient}'])
-            relay.per_recipient = per
+            if plan.get('pipe_class') == 'dovecot':
+                relay = pipe.DovecotLdaRelay()
+            elif plan.get('pipe_class') == 'maildrop':
+                relay = pipe.MaildropRelay()
+            else:
+                relay = pipe.PipeRelay(['deliver'] + (['{recipient}'] if per else []))
+                relay.per_recipient = per
             q = ProxyQueue(relay)
         else:
             q = ProxyQueue(ScriptedProxyRelay(plan['relay'], log))
@@ -377,7 +384,7 @@ def judge(case, obs):
                         desc + '; a fresh DiskStorage over the directory as it was at that instant finds %r, expected %r' % (got, want)))
         return out
     if final[0] == '2':
-        if case['queue'] == 'proxy-pipe' and case['plan'].get('per_recipient'):
+        if case['queue'] == 'proxy-pipe' and (case['plan'].get('per_recipient') or case['plan'].get('pipe_class') == 'dovecot'):
             want = [(r,) for r in rcpts]
         else:
             want = expected_envelopes(case['chain'], rcpts) if case['queue'] == 'queue' else [tuple(rcpts)]
@@ -431,6 +438,11 @@ def cases(tier):
             for per in (False, True):
                 for fate in ('ok', 'temp', 'perm', 'killed', 'status255') + (('first-ok-rest-temp', 'first-ok-rest-killed', 'first-ok-rest-perm') if per and n > 1 else ()):
                     yield {'edge': edge, 'queue': 'proxy-pipe', 'chain': 'none', 'n': n, 'plan': {'pipe': fate, 'per_recipient': per}}
+        # the ready-made delivery-agent relays (dovecot-lda: one run per recipient; maildrop: one run for the message)
+        for pc in ('dovecot', 'maildrop'):
+            for n in (1, 2):
+                for fate in ('ok', 'temp', 'perm') + (('first-ok-rest-temp',) if pc == 'dovecot' and n > 1 else ()):
+                    yield {'edge': edge, 'queue': 'proxy-pipe', 'chain': 'none', 'n': n, 'plan': {'pipe': fate, 'per_recipient': pc == 'dovecot', 'pipe_class': pc}}
         for chain in (('none', 'split', 'date+domainsplit') if tier == 'quick' else CHAINS):
             for n in ((1, 2) if tier == 'quick' else (1, 2, 3)):
                 yield {'edge': edge, 'queue': 'queue-disk', 'chain': chain, 'n': n, 'plan': {}}
